@@ -172,3 +172,7 @@ def boh_init(self, lm_weight=1.0):
     self._hyps = []
     self.lm_weight = lm_weight
 
+# reference for pero_ocr.decoding.bag_of_hypotheses:BagOfHypotheses.best_hyp
+def boh_best_hyp(self):
+    return max(self._hyps, key=lambda hyp: hyp.vis_sc + (self.lm_weight * hyp.lm_sc if hyp.lm_sc is not None else 0)).transcript
+
